@@ -253,7 +253,12 @@ FinalizeF(w, cs) ==
                  gap == IF end0 < w1.baselen THEN w1.baselen - end0 ELSE 0
                  at == w1.pos + gap
              IN Ok([w1 EXCEPT !.pos = at + cds + tail(at), !.comp = Closed, !.fin = TRUE, !.cdstart = at,
-                              !.gaps = IF gap > 0 THEN Append(w1.gaps, [from |-> w1.pos, to |-> at]) ELSE w1.gaps])
+                              \* (a gap that continues the previous one - the old directory's place after an earlier shrinking
+                              \*  append - is one uncovered range)
+                              !.gaps = IF gap = 0 THEN w1.gaps
+                                       ELSE IF w1.gaps # <<>> /\ w1.gaps[Len(w1.gaps)].to = w1.pos
+                                            THEN [w1.gaps EXCEPT ![Len(w1.gaps)].to = at]
+                                            ELSE Append(w1.gaps, [from |-> w1.pos, to |-> at])])
 
 (***************************************************************************)
 (* The state machine.  `res` is the result class of the last call.         *)
